@@ -55,6 +55,25 @@ def recover_cascade(mod=None):
     methods = {n.name: n for n in cls.body if isinstance(n, ast.FunctionDef)}
     if "parse" not in methods:
         raise Unsupported("LineParser.parse not found")
+    # every statement of parse() must have a shape this encoding understands; anything else (a length guard, another
+    # rewrite of self.line, a loop, ...) would silently fall outside the model -> refuse
+    for stmt in methods["parse"].body:
+        if isinstance(stmt, ast.Expr) and isinstance(stmt.value, ast.Constant):
+            continue  # docstring
+        if isinstance(stmt, ast.Expr) and isinstance(stmt.value, ast.Call) and "logger" in ast.unparse(stmt.value.func):
+            continue
+        if isinstance(stmt, ast.Return) and ast.unparse(stmt.value) == "self.line":
+            continue
+        if isinstance(stmt, ast.Assign) and isinstance(stmt.value, ast.Call) and ast.unparse(stmt.value.func).startswith("self.") and not stmt.value.args:
+            continue  # x = self.parse_*()
+        if isinstance(stmt, ast.If) and not stmt.orelse:
+            test = ast.unparse(stmt.test)
+            body_ok = len(stmt.body) == 1 and isinstance(stmt.body[0], ast.Return)
+            if body_ok and (isinstance(stmt.test, ast.Name) or (isinstance(stmt.test, ast.Call) and test.startswith("self.") and not stmt.test.args)):
+                continue  # if x: return x   /   if self.is_*(): return self.line
+            if test == "'data16' in self.line" and len(stmt.body) == 1 and ast.unparse(stmt.body[0]) == "self.line = self.line.replace('data16 ', '')":
+                continue
+        raise Unsupported(f"LineParser.parse contains a statement outside the modelled shapes: {ast.unparse(stmt)[:120]!r}")
     # order of self.<method>() calls inside parse, in source order
     calls = []
     for node in ast.walk(methods["parse"]):
